@@ -357,6 +357,41 @@ def judge_other_stdout_encodings(rec, tmp):
     shutil.rmtree(b, ignore_errors=True)
 
 
+def inprocess_loop(rec, tmp):
+    """The discover loop driven by a program that stays alive (an agent calling the library): rules are suggested, appended to the SAME rules file, the file is
+    loaded again and the statements are read again - the descriptions the new rules match are no longer uncategorised."""
+    from tally import merchant_utils as mu
+    from tally.commands import discover as D
+    from tally.format_parser import parse_format_string
+    from tally.parsers import parse_generic_csv
+    descs = ['BLUE BOTTLE COFFEE 12', 'SQ *CORNER BAKERY', 'CITY GYM MEMBERSHIP', 'ACME HARDWARE #44']
+    b = make_budget(tmp, 7702, descs)
+    rules_path = os.path.join(b, 'config', 'merchants.rules')
+    spec = parse_format_string('{date:%Y-%m-%d},{description},{amount}')
+
+    def unknown():
+        rules = mu.get_all_rules(rules_path)
+        transforms = mu.get_transforms(rules_path)
+        txns = parse_generic_csv(os.path.join(b, 'data', 'a.csv'), spec, rules, source_name='A', transforms=transforms)
+        return [t['raw_description'] for t in txns if t['category'] == 'Unknown']
+    try:
+        before = unknown()
+        with open(rules_path, 'a', encoding='utf-8') as f:
+            for d in before:
+                f.write('\n' + D.suggest_merchants_rule(D.suggest_merchant_name(d), D.suggest_pattern(d)).replace('category: CATEGORY', 'category: Cat').replace('subcategory: SUBCATEGORY', 'subcategory: Sub') + '\n')
+        after = unknown()
+    except Exception as e:
+        rec.unsure('in-process discover loop could not run: %s: %s' % (type(e).__name__, e))
+        shutil.rmtree(b, ignore_errors=True)
+        return
+    rec.case()
+    rec.count('inprocess_discover_loops')
+    if sorted(before) != sorted(descs) or after:
+        rec.violation('discover-loop-does-not-shrink:same-process', f'one process: {len(before)} uncategorised descriptions, their suggested rules appended to the same merchants.rules, '
+                      f'file loaded and statements read again: still uncategorised {after}', {'kind': 'inprocess-loop'})
+    shutil.rmtree(b, ignore_errors=True)
+
+
 def run(rec, shard, nshards, t):
     core.import_tally()
     rnd = core.rng_for('C19', shard)
@@ -376,6 +411,7 @@ def run(rec, shard, nshards, t):
             for d in ['WHOLE FOODS MARKET 10234 SEATTLE WA', 'STARBUCKS #123 SEATTLE', 'SQ *BLUE BOTTLE COFFEE', 'AT&T*BILL PAYMENT', 'C++ BOOKS (USED)']:
                 library_check(rec, d)
             judge_other_stdout_encodings(rec, tmp)
+            inprocess_loop(rec, tmp)
     finally:
         shutil.rmtree(tmp, ignore_errors=True)
 
@@ -389,6 +425,9 @@ def replay(rec, case):
         rnd = core.rng_for('C19', 'replay')
         if case['kind'] == 'stdout-encoding':
             judge_other_stdout_encodings(rec, tmp)
+            return
+        if case['kind'] == 'inprocess-loop':
+            inprocess_loop(rec, tmp)
             return
         for k in range(4):
             cli_loop(rec, rnd, tmp, k)
